@@ -129,6 +129,10 @@ fn take_effects(cmd: &mut Cmd, expect: &[u8]) {
 ///    1 root spawns a child and parks; an outside wake later makes it spawn another and finish
 ///    2 a chain of three tasks, each spawned from inside the poll of the previous one
 ///    3 a task that wakes itself and needs two polls
+///    4 a task whose LAST poll spawns a child and then leaves it unwakeable (pending, no waker kept,
+///      not woken: the executor evicts it) — the child still belongs to this call
+///    5 a task that spawns a child, wakes itself and finishes in the same poll (its queued id then
+///      finds no task) — the child still belongs to this call
 fn settle_case<const C: u8>() {
     let (pr, pc, pc2) = (Arc::new(Probe::default()), Arc::new(Probe::default()), Arc::new(Probe::default()));
     let slot = Slot::new();
@@ -137,6 +141,8 @@ fn settle_case<const C: u8>() {
     let (p0, p1) = match C {
         0 => (SPAWN | EFFECT | PARK | CHILD_WAKES_SLOT, SPAWN | EFFECT | READY),
         1 => (SPAWN | PARK, SPAWN | READY),
+        4 => (SPAWN, 0),
+        5 => (SPAWN | WAKE_SELF | READY, 0),
         _ => (EFFECT | WAKE_SELF, EFFECT | EVENT | READY),
     };
     let mut cmd: Cmd = {
@@ -166,6 +172,12 @@ fn settle_case<const C: u8>() {
             assert!(pr.polls() == 2 && pc2.polls() == 1, "the task spawned by the last task of the pass ran in the same call");
             take_effects(&mut cmd, &[tag.wrapping_add(101)]);
         }
+        4 | 5 => {
+            assert!(pr.polls() == 1 && pr.dropped(), "root ran once and is gone (evicted / finished)");
+            assert!(pc.polls() == 1, "the child spawned in the last poll of an evicted or finished task ran in the same call");
+            assert!(hooks::live_tasks(&cmd) == 0, "nothing lingers");
+            take_effects(&mut cmd, &[tag.wrapping_add(100)]);
+        }
         2 => {
             assert!(pr.polls() == 3, "three generations in one call");
             assert!(hooks::live_tasks(&cmd) == 0, "all finished");
@@ -192,6 +204,8 @@ fn settle_case<const C: u8>() {
     nd_cover!(C == 1, "task spawned by the last task of a pass");
     nd_cover!(C == 2, "three generations");
     nd_cover!(C == 3, "self-woken task");
+    nd_cover!(C == 4, "spawned by a task that is evicted in the same poll");
+    nd_cover!(C == 5, "spawned by a task that wakes itself and finishes");
     std::mem::forget((cmd, pr, pc, pc2, slot));
 }
 
@@ -207,6 +221,13 @@ pub fn c01_settle_quiescent_a() {
 pub fn c01_settle_quiescent_b() {
     let c = nd::any_u8();
     dispatch!(c, settle_case, 1 3);
+}
+
+#[cfg_attr(kani, kani::proof, kani::unwind(7))]
+#[cfg_attr(kani, kani::stub(core::mem::MaybeUninit::write, crate::common::maybe_uninit_write))]
+pub fn c01_settle_quiescent_c() {
+    let c = nd::any_u8();
+    dispatch!(c, settle_case, 4 5);
 }
 
 /// The hand-over through `poll_next` (how the core's `CommandSpawner` and parent commands take a
@@ -330,6 +351,7 @@ impl Future for ExSp {
 ///    1 T1 wakes itself and spawns T2 in its second poll; T2 finishes — one run_all
 ///    2 T1 spawns T2 and parks; T2 finishes without waking: T1 stays parked, nothing runnable left;
 ///      an outside wake later finishes it
+///    3 T1 spawns T2, wakes itself and finishes in the same poll (its queued id then finds no task)
 fn run_all_case<const X: u8>() {
     let (exec, spawner) = new_executor();
     let (p1, p2, p3) = (Arc::new(Probe::default()), Arc::new(Probe::default()), Arc::new(Probe::default()));
@@ -337,6 +359,7 @@ fn run_all_case<const X: u8>() {
     let (p0, p1b, child_p0) = match X {
         0 => (SPAWN | PARK, READY, CHILD_WAKES_SLOT | SPAWN | READY),
         1 => (WAKE_SELF, SPAWN | READY, READY),
+        3 => (SPAWN | WAKE_SELF | READY, READY, READY),
         _ => (SPAWN | PARK, READY, READY),
     };
     spawner.spawn(ExSp { p0, p1: p1b, probe: p1.clone(), child_probe: p2.clone(), grandchild_probe: p3.clone(), slot: slot.clone(), spawner: spawner.clone(), child_p0 });
@@ -351,6 +374,10 @@ fn run_all_case<const X: u8>() {
         1 => {
             assert!(p1.polls() == 2 && p2.polls() == 1, "self-woken task and the task it spawned ran in the same call");
             assert!(p1.dropped() && p2.dropped() && exec.live_tasks() == 0, "all finished");
+        }
+        3 => {
+            assert!(p1.polls() == 1 && p1.dropped(), "parent finished");
+            assert!(p2.polls() == 1 && p2.dropped() && exec.live_tasks() == 0, "the task spawned by a task whose stale wake-up finds nothing ran in the same call");
         }
         _ => {
             assert!(p1.polls() == 1 && p2.polls() == 1 && !p1.dropped() && p2.dropped(), "child ran, parent parked");
@@ -367,6 +394,7 @@ fn run_all_case<const X: u8>() {
     nd_cover!(X == 0, "spawn chain with a wake-up back to the parent");
     nd_cover!(X == 1, "self-wake then spawn");
     nd_cover!(X == 2, "parent parked, child finished");
+    nd_cover!(X == 3, "spawn, self-wake and finish in one poll");
     std::mem::forget((exec, spawner, p1, p2, p3, slot));
 }
 
@@ -374,5 +402,5 @@ fn run_all_case<const X: u8>() {
 #[cfg_attr(kani, kani::stub(core::mem::MaybeUninit::write, crate::common::maybe_uninit_write))]
 pub fn c01_run_all_quiescent() {
     let x = nd::any_u8();
-    dispatch!(x, run_all_case, 0 1 2);
+    dispatch!(x, run_all_case, 0 1 2 3);
 }
